@@ -97,3 +97,13 @@ def split_stream(kind: str, stream: bytes):
     out = stream.split(b"\r\n")
     assert out[-1] == b""
     return [x + b"\r\n" for x in out[:-1]]
+
+
+def owned(call, packet: bytes, view: bool = False):
+    """call(buffer) with the packet in a buffer the CALLER owns (a bytearray, or a memoryview of it) that is overwritten as soon as the
+    call has returned - the recv_into / readinto pattern.  The library must not keep references into it."""
+    buf = bytearray(packet)
+    try:
+        return call(memoryview(buf) if view else buf)
+    finally:
+        buf[:] = b"\xee" * len(buf)
